@@ -9,7 +9,8 @@ filter chain on the field types that analyse text.  All texts of one
 (configuration, shard) go into ONE real index (one document per text, stored
 key), built once per task.
 
-Oracle = relations between whoosh's own paths (no second tokenizer):
+Oracle = relations between whoosh's own paths (no second analyzer; only R4a
+compares the tokenizer stage with reference models of the shipped tokenizers):
 
  R0  analysing / indexing the text does not raise
  R1  doc in search(Term(f, t)) for every token t of field.tokenize(mode=index)
@@ -25,12 +26,31 @@ Oracle = relations between whoosh's own paths (no second tokenizer):
  R4  positions non-decreasing in order of appearance; 0 <= startchar <=
      endchar <= len(text); text[startchar:endchar] re-analyses to (a stream
      containing) the token
+ R4a the tokenizer stage of every chain (its first item, called with
+     positions and chars) yields exactly the (text, startchar, endchar
+     [, position]) sequence of a reference model written from the tokenizer's
+     documentation: IDTokenizer (the whole text), RegexTokenizer (every match
+     / with gaps=True every non-empty piece between matches, hence also the
+     Space- and CommaSeparatedTokenizer), CharsetTokenizer (maximal runs of
+     characters the map translates, translated), NgramTokenizer (every
+     substring of minsize..maxsize characters); PathTokenizer records no
+     offsets and is not modelled
+ R4b in one-to-one chains every final token carries the (startchar, endchar)
+     of a tokenizer-stage token: filters hand the offsets through
  R5  Hit.highlights(f) for {Whole, Sentence, Context, Pinpoint}Fragmenter x
      {Uppercase, Html, Null}Formatter x search(terms=False|True): the three
      formatters agree modulo their markup; with markup stripped every
      fragment is a substring of the stored text; every marked span
      re-analyses to a stream containing a query term (weak) / consisting of
      query terms only (strong)
+ R5x queries spanning two fields: every document holds its text in f and in a
+     second field g of the same type; for every highlight term t (as R5) and
+     its cyclic successor o among the document's distinct tokens,
+     search(And([Term(f, o), Term(g, t)]), terms=False|True) finds the
+     document and highlights(g) (Whole fragmenter; with terms=True also
+     Pinpoint = stored-characters path) marks only spans that re-analyse to
+     t, g's only query term, never the term asked for in f, and is the same
+     excerpt highlights(f) gave for the single-field query Term(f, t)
 
 Violations are shrunk on a one-document index (drop chunks, then drop filters
 of the chain) and the signature is relation | kind | field type : minimal
@@ -243,6 +263,58 @@ def exc_kind(e):
 
 
 # --------------------------------------------------------------------------
+# reference models of the shipped tokenizers (R4a), written from their
+# documentation: -> [(token text, position or None, startchar, endchar)]
+
+def ref_tokenize(tok, text):
+    """What the first item of a chain must yield for text with positions and
+    chars in index mode; None when the tokenizer is not modelled."""
+    from whoosh import analysis as A
+    cls = type(tok)
+    if cls is A.IDTokenizer:
+        # "the entire input string as a single token"
+        return [(text, None, 0, len(text))]
+    if cls is A.RegexTokenizer:
+        matches = [(m.start(), m.end()) for m in tok.expression.finditer(text)]
+        if tok.gaps:
+            # "splits on the expression": the non-empty pieces between matches
+            spans, at = [], 0
+            for a, b in matches:
+                spans.append((at, a))
+                at = b
+            spans.append((at, len(text)))
+            spans = [(a, b) for a, b in spans if b > a]
+        else:
+            # "each match of the expression equals a token"
+            spans = matches
+        return [(text[a:b], n, a, b) for n, (a, b) in enumerate(spans)]
+    if cls is A.CharsetTokenizer:
+        # "characters that map to None are token break characters, for all
+        # other characters the map is used to translate": tokens = maximal
+        # runs of translated characters
+        out, run, start = [], [], None
+        for j, ch in enumerate(text + u"\0"):
+            tr = tok.charmap.get(ord(ch)) if j < len(text) else None
+            if tr:
+                if start is None:
+                    start = j
+                run.append(tr)
+            elif start is not None:
+                out.append(("".join(run), len(out), start, j))
+                run, start = [], None
+        return out
+    if cls is A.NgramTokenizer:
+        # every substring of minsize..maxsize characters, by start, then size
+        out = []
+        for a in range(len(text)):
+            for size in range(tok.min, tok.max + 1):
+                if a + size <= len(text):
+                    out.append((text[a:a + size], None, a, a + size))
+        return out
+    return None
+
+
+# --------------------------------------------------------------------------
 # one real index over a list of texts
 
 BARE_OK = re.compile(r"^[\w.,\-]+$", re.UNICODE)
@@ -281,7 +353,19 @@ class Env(object):
         self.hl = self.flags.get("hl", True) and bool(self.field.stored)
         self.exact = self.flags.get("exact", True) and self.want_chars
         self.strong = self.flags.get("strong", False)
-        self.schema = F.Schema(k=F.STORED, f=schema_field)
+        # "g": a second field of the same type holding the same text, so that
+        # queries can span two fields that contain the same words (R5x)
+        self.gname = "g"
+        self.xfield = self.hl
+        if self.xfield:
+            gfield, _ = build_field(cfgname, keep)
+            self.schema = F.Schema(k=F.STORED, f=schema_field, g=gfield)
+        else:
+            self.schema = F.Schema(k=F.STORED, f=schema_field)
+        from whoosh.analysis import Tokenizer
+        self.tok0 = chain_items(self.field.analyzer)[0]
+        if not isinstance(self.tok0, Tokenizer):
+            self.tok0 = None
         self.parser = QueryParser(self.fname, self.schema)
         self.build_problems = {}     # text index -> problem
         self.itoks = {}
@@ -302,7 +386,10 @@ class Env(object):
                         skip.add(i)
                         continue
                 try:
-                    w.add_document(k=i, f=text)
+                    if self.xfield:
+                        w.add_document(k=i, f=text, g=text)
+                    else:
+                        w.add_document(k=i, f=text)
                 except Exception as e:
                     self.build_problems[i] = (0, exc_kind(e), "add_document",
                                               "add_document(f=%r) raised %r" % (text, e))
@@ -357,6 +444,9 @@ class Env(object):
             return Q.And([Q.Term(self.fname, t) for t in key[1]])
         if kind == "phrase":
             return Q.Phrase(self.fname, list(key[1]))
+        if kind == "xand":
+            # one term in each of the two fields
+            return Q.And([Q.Term(self.fname, key[1]), Q.Term(self.gname, key[2])])
         if kind == "termq":
             return self.parser.term_query(self.fname, key[1], Q.Term)
         if kind == "parse":
@@ -392,6 +482,16 @@ class Env(object):
                 v = e
             self.rcache[ck] = v
         return v
+
+
+def evict(env, key, terms):
+    """Forget a cached Results object after a highlight call on it raised:
+    whoosh caches per-field highlight state on the Results, so the exception
+    would otherwise echo in every later document sharing the query."""
+    v = env.rcache.pop((key, terms), None)
+    if v is not None and not isinstance(v, Exception):
+        for k2 in [k2 for k2, v2 in env.qcache.items() if v2 is v]:
+            del env.qcache[k2]
 
 
 FRAGMENTERS = ("WholeFragmenter", "SentenceFragmenter", "ContextFragmenter", "PinpointFragmenter")
@@ -585,6 +685,48 @@ def check_doc(env, i, acc=None):
                 P.append((4, "offset-reanalysis", "", "text %r: token %r claims chars (%d, %d) = %r which analyses to %r"
                           % (text, tt, sc, ec, src, sorted(back))))
                 break
+        # R4a/R4b: the tokenizer stage against its reference model; filters
+        # of one-to-one chains hand the tokenizer's spans through
+        if env.tok0 is not None:
+            ref = ref_tokenize(env.tok0, text)
+            if ref is None:
+                cnt("r4_tokenizer_not_modelled")
+            else:
+                cnt("r4_tokenizer_model_checks")
+                try:
+                    stage = [(t.text, t.pos, t.startchar, t.endchar)
+                             for t in env.tok0(text, positions=True, chars=True, mode="index")]
+                except Exception as e:
+                    stage = None
+                    if not any(p[0] == 0 for p in P):
+                        P.append((0, exc_kind(e), "analyze-index", "%s(%r, positions=True, chars=True) raised %r"
+                                  % (type(env.tok0).__name__, text, e)))
+                if stage is not None:
+                    # positions are compared where the documentation pins them (ref pos not None)
+                    same_model = len(stage) == len(ref) and all(
+                        g[0] == r[0] and g[2:] == r[2:] and (r[1] is None or g[1] == r[1])
+                        for g, r in zip(stage, ref))
+                    if not same_model:
+                        kind = "tokenizer-model"
+                        if [x[0] for x in stage] == [x[0] for x in ref]:
+                            kind = "tokenizer-model-offsets"
+                            if [(x[2], x[3]) for x in stage] == [(x[2], x[3]) for x in ref]:
+                                kind = "tokenizer-model-positions"
+                        P.append((4, kind, "", "text %r: %s yields (text, pos, startchar, endchar) %r, its documentation gives %r"
+                                  % (text, type(env.tok0).__name__, stage[:6], ref[:6])))
+                    else:
+                        if stage and (stage[0][2] > 0 or any(x[2] - y[3] >= 2 for x, y in zip(stage[1:], stage))):
+                            # leading separator / run of >= 2 separator characters
+                            cnt("r4_tokenizer_model_separator_runs")
+                        if env.strong and not any(p[0] == 4 for p in P):
+                            cnt("r4_filter_span_checks")
+                            spans = set((x[2], x[3]) for x in stage)
+                            for tt, pos, sc, ec in itoks:
+                                if (sc, ec) not in spans:
+                                    P.append((4, "offset-moved-by-filter", "",
+                                              "text %r: token %r has chars (%r, %r), the tokenizer's spans are %r"
+                                              % (text, tt, sc, ec, sorted(spans)[:8])))
+                                    break
         r4_failed = any(p[0] == 4 for p in P)
 
     # R5 ---------------------------------------------------------------
@@ -602,6 +744,7 @@ def check_doc(env, i, acc=None):
         flagged = set()
         P5 = []
         subs_run = set()
+        single = {}      # (term, fragmenter, terms) -> HtmlFormatter excerpt of field f for Term(f, term)
         for key, qterms in hq:
             for terms in (False, True):
                 v = env.results(key, terms)
@@ -633,8 +776,11 @@ def check_doc(env, i, acc=None):
                             flagged.add((sub, "exc"))
                             P5.append((5, exc_kind(e), sub, "text %r query %s terms=%s: highlights raised %r"
                                        % (text, qrepr, terms, e)))
+                        evict(env, key, terms)
                         continue
                     up, ht, nu = outs
+                    if key[0] == "term":
+                        single[(key[1], frname, terms)] = ht
                     if path == "chars":
                         cnt("r5_pinpoint_stored_chars_path")
                     if not ht:
@@ -683,6 +829,94 @@ def check_doc(env, i, acc=None):
                                  % (s, ht, sorted(back), sorted(qterms)))
                     if nmarked == 0:
                         cnt("r5_highlights_without_mark")
+        # R5x: a query with one term in each of two fields that hold the same
+        # text.  In field g only g's query term may be marked, and the excerpt
+        # is the one the single-field query Term(f, same term) gave for f
+        if env.xfield and len(distinct) >= 2:
+            Px = []
+            xsubs_run = set()
+            for tt in (hterms[:1] if light else hterms):
+                other = distinct[(distinct.index(tt) + 1) % len(distinct)]
+                key = ("xand", other, tt)
+                qterms = frozenset([tt])
+                for terms in (False, True):
+                    cnt("r5x_searches_checked")
+                    v = env.results(key, terms)
+                    if isinstance(v, Exception):
+                        if ("xfield/search", "exc") not in flagged:
+                            flagged.add(("xfield/search", "exc"))
+                            Px.append((5, exc_kind(v), "xfield/search", "text %r: %s terms=%s raised %r" % (text, key, terms, v)))
+                        continue
+                    r, rank, qrepr = v
+                    if dn not in rank:
+                        if not any(p[0] == 1 for p in P) and ("xfield/search", "missing") not in flagged:
+                            flagged.add(("xfield/search", "missing"))
+                            Px.append((5, "missing", "xfield/search", "text %r (in both fields): document not in search(%s)" % (text, qrepr)))
+                        continue
+                    hit = r[rank[dn]]
+                    if hit.docnum != dn:
+                        raise core.HarnessError("hit lookup mismatch")
+                    for frname in (TERMS_TRUE_FRAGMENTERS if terms else ("WholeFragmenter",)):
+                        path = "chars" if (terms and frname == "PinpointFragmenter" and env.has_chars) else "retok"
+                        sub = "xfield/terms=%s/%s/%s" % (terms, frname, path)
+                        xsubs_run.add(sub)
+
+                        def flag(kind, detail):
+                            if (sub, kind) not in flagged:
+                                flagged.add((sub, kind))
+                                Px.append((5, kind, sub, "text %r in fields f and g, query %s terms=%s, highlights('g'): %s"
+                                           % (text, qrepr, terms, detail)))
+                        try:
+                            r.fragmenter = getattr(H, frname)()
+                            r.formatter = H.HtmlFormatter(between=SENT)
+                            cnt("r5x_highlight_calls")
+                            ht = hit.highlights(env.gname)
+                        except Exception as e:
+                            flag(exc_kind(e), "raised %r" % (e,))
+                            evict(env, key, terms)
+                            continue
+                        if path == "chars":
+                            cnt("r5x_pinpoint_stored_chars_path")
+                        want = single.get((tt, frname, terms))
+                        nbefore = len(Px)
+                        segs = parse_html(ht) if ht else []
+                        for frag in "".join(x for _, x in segs).split(SENT):
+                            if frag not in text:
+                                flag("not-substring", "fragment %r (of %r) is not a substring of the stored text" % (frag, ht))
+                        for m, x in segs:
+                            if not m:
+                                continue
+                            cnt("r5x_marked_spans")
+                            if not env.exact or r4_failed:
+                                continue
+                            try:
+                                back = env.token_texts(x)
+                            except Exception:
+                                continue        # reported by R0/R5
+                            if not (back & qterms):
+                                flag("span-not-term", "marked span %r (in %r) analyses to %r; the only query term of "
+                                     "field g is %r" % (x, ht, sorted(back), tt))
+                            elif env.strong and not (back <= qterms):
+                                flag("span-extra-token", "marked span %r (in %r) analyses to %r; the only query term "
+                                     "of field g is %r" % (x, ht, sorted(back), tt))
+                        if want is not None:
+                            cnt("r5x_compared_with_single_field_query")
+                            if ht != want and len(Px) == nbefore and not any(f_[0] == sub for f_ in flagged):
+                                # (a more specific discrepancy of the same excerpt is reported instead)
+                                flag("differs-from-single-field-query",
+                                     "%r, but highlights('f') of Term('f', %r) on the same text gave %r" % (ht, tt, want))
+            bykind = {}
+            for p in Px:
+                bykind.setdefault(p[1], []).append(p)
+            for kind, ps in bykind.items():
+                subs = set(p[2] for p in ps)
+                tt_run = set(x for x in xsubs_run if x.startswith("xfield/terms=True/"))
+                if len(xsubs_run) > 1 and subs == xsubs_run:
+                    P.append((5, kind, "xfield/all", ps[0][3]))
+                elif len(tt_run) > 1 and subs == tt_run:
+                    P.append((5, kind, "xfield/terms=True", ps[0][3]))
+                else:
+                    P.extend(ps)
         # one discrepancy kind on every fragmenter path is one problem
         bykind = {}
         for p in P5:
@@ -815,6 +1049,20 @@ def merge_sigs(sigs):
         final = remap.get(sig, sig)
         if final in canon:
             remap[sig] = canon[final]
+    # a search/highlight discrepancy (R1-R3, R5) that shrinks to the bare
+    # tokenizer for three or more different tokenizers does not depend on the
+    # analysis at all: one class
+    bare = {}
+    for sig in sigs:
+        head, _, tail = remap.get(sig, sig).rpartition("|")
+        chain = tail.partition(":")[2]
+        if head[:3] in ("R1|", "R2|", "R3|", "R5|") and chain.endswith("Tokenizer") and "+" not in chain:
+            bare.setdefault(head, set()).add(chain)
+    for sig in sigs:
+        head, _, tail = remap.get(sig, sig).rpartition("|")
+        chain = tail.partition(":")[2]
+        if len(bare.get(head, ())) >= 3 and chain.endswith("Tokenizer") and "+" not in chain:
+            remap[sig] = head + "|*:any-tokenizer"
     return remap
 
 
@@ -893,7 +1141,13 @@ def run(ctx):
     ctx.rule = ("case = (analyzer/field configuration, text); texts = every concatenation of 1..%d chunks of the "
                 "13-chunk alphabet (seed rotates among 3 alphabets of the same shape), enumerated without "
                 "repetition, simplest first; each case evaluates relations R0-R5 of the module docstring on a real "
-                "index holding one document per text; a case is non-trivial when the text yields at least one "
+                "index holding one document per text (the text in field f and, for the two-field highlight family "
+                "R5x, again in a second field g of the same type); R4a compares the tokenizer stage of every chain "
+                "with a reference model of the shipped tokenizer (ID, Regex incl. gaps/space/comma separated, "
+                "Charset, Ngram), R4b demands that filters of one-to-one chains keep the tokenizer's offsets; "
+                "R5x = And(Term(f, o), Term(g, t)) for every highlight term t and its cyclic successor o among the "
+                "document's tokens, terms=False|True, highlights(g) must mark t only and equal the single-field "
+                "excerpt; a case is non-trivial when the text yields at least one "
                 "index-mode token (the document is findable at all)" % nmax)
     ctx.assumptions = [
         "one single-segment RAM index per (configuration, shard of ~%d texts); segment layout is C06's concern" % SHARD_TEXTS[ctx.tier],
@@ -909,6 +1163,15 @@ def run(ctx):
         "R5 on the 4-chunk texts of the thorough tier (texts of <=3 chunks get the full programme in both tiers): "
         "Term(first token), Term(last token), And(query tokens); every fragmenter with the HtmlFormatter, the three "
         "formatters compared on the WholeFragmenter only",
+        "R4a: a tokenizer's documentation is read literally (RegexTokenizer: 'each match of the expression equals a "
+        "token' / gaps=True 'splits on the expression' with empty pieces dropped; CharsetTokenizer: 'characters that "
+        "map to None are token break characters', every other character is translated; NgramTokenizer: all grams of "
+        "minsize..maxsize); positions are compared for Regex/Charset (documented to count 0,1,2,...), not for "
+        "ID/Ngram tokenizers",
+        "R5x: the two fields hold the same text and have the same type, so highlights(g) for And(Term(f, o), "
+        "Term(g, t)) and highlights(f) for Term(f, t) are the same function of (text, analyzer, {t}); HtmlFormatter "
+        "only; the search itself is C05's concern and only reported when the document is missing although R1 holds; "
+        "4-chunk texts of the thorough tier: first highlight term only",
         "the 70-character word is periodic (period 10) so that n-gram configurations have few distinct grams",
     ]
     results = ctx.pmap(task, tasks, absorb=False)
@@ -926,7 +1189,10 @@ def run(ctx):
     c = ctx.counters
     for k, least in (("r1_term_checks", 1000), ("r3_phrase_checks", 1000), ("r5_marked_spans", 1000),
                      ("r5_pinpoint_stored_chars_path", 100), ("r4_token_differs_from_source", 100),
-                     ("r2_parse_quoted", 1000), ("r2_parse_bare", 100), ("r2_parse_phrase", 100)):
+                     ("r2_parse_quoted", 1000), ("r2_parse_bare", 100), ("r2_parse_phrase", 100),
+                     ("r4_tokenizer_model_checks", 1000), ("r4_tokenizer_model_separator_runs", 1000),
+                     ("r4_filter_span_checks", 1000), ("r5x_marked_spans", 1000),
+                     ("r5x_compared_with_single_field_query", 1000), ("r5x_pinpoint_stored_chars_path", 100)):
         if c.get(k, 0) < least:
             raise core.HarnessError("vacuous: %s = %d" % (k, c.get(k, 0)))
 
